@@ -142,7 +142,7 @@ def member_kind(cls: Optional[type], k: str) -> str:
                 return f"declared:{k}"
             if f.name == k:
                 return f"attribute-name:{k}"
-    return "unknown"
+    return "unknown:" + wiregen.name_kind(k)
 
 
 def lossless_problems(x: Any, w: Any, d: Any, path: str = "") -> List[Dict[str, Any]]:
